@@ -280,7 +280,8 @@ def render_xls(grid, *, opts=None, images=None) -> bytes:
         sheets.append({"name": sh["name"], "rows": rows, "origin": tuple(sh.get("origin", [0, 0]))})
     p = grid.get("props") or {}
     props = {pid: p[k] for k, pid in (("title", 2), ("subject", 3), ("author", 4), ("keywords", 5), ("description", 6)) if p.get(k) is not None} or None
-    return biff8.write_xls(sheets, props=props, codepage=opts.get("codepage", 65001))
+    from vf.gen.legacy import pick_codepage
+    return biff8.write_xls(sheets, props=props, codepage=pick_codepage(opts, p))
 
 
 # ---- expected table ---------------------------------------------------------------------------------------------------
